@@ -388,6 +388,213 @@ func deadFromStart(r *vh.Runner, c *vh.Case, i int) {
 	}
 }
 
+// directedClose: four close histories that random programs reach only now and
+// then, each with the muxers' idle time-out far away so that only the tube's
+// own timers can finish the close, and each judging only the end those timers
+// govern (an end in finWait whose peer has gone is the known finding).
+//
+//	crossing-fins:        both ends close, the FINs cross, then everything towards
+//	                      one end is lost (its FIN is never acknowledged)
+//	passive-close-no-ack: A closes, B (nothing unacknowledged) closes later and
+//	                      the acknowledgement of its FIN never arrives
+//	closed-before-init:   an unreliable tube on a dead network, a reader without
+//	                      deadline, then Close
+//	resp-and-fin-together: the acceptor answers and closes at once; its response
+//	                      and its FIN reach the requester back to back
+func directedClose(r *vh.Runner, c *vh.Case, i int) {
+	rng := vh.NewRand(r.Seed, "c16-directed", i)
+	kind := []string{"crossing-fins", "passive-close-no-ack", "closed-before-init", "resp-and-fin-together"}[i%4]
+	bound := 15 * time.Second
+	nw := msgnet.NewPair()
+	A := tubes.Client(nw.A, &tubes.Config{Timeout: time.Hour, Log: quietLog()})
+	B := tubes.Server(nw.B, &tubes.Config{Timeout: time.Hour, Log: quietLog()})
+	defer func() {
+		nw.SetPolicy(nil)
+		if !bub.Within(bub.Go(func() { A.Stop(); B.Stop() }), bound) && !c.Violated() {
+			c.Violate("C16:call-does-not-return:Muxer.Stop:"+kind, map[string]any{"bound": bound.String()})
+		}
+	}()
+	acc := make(chan tubes.Tube, 4)
+	go func() {
+		for {
+			t, err := B.Accept()
+			if err != nil {
+				return
+			}
+			acc <- t
+		}
+	}()
+	r.Count("evaluations", 1)
+	r.Count("directed_close:"+kind, 1)
+	r.Nontrivial(fmt.Sprintf("directed|%d", i))
+	fail := func(call string, d map[string]any) {
+		d["bound"] = bound.String()
+		c.Violate("C16:call-does-not-return:"+call+":"+kind, d)
+	}
+	isFIN := func(b []byte) bool { return len(b) >= 12 && b[1]&3 == 0 && b[1]&16 != 0 }
+	switch kind {
+	case "closed-before-init":
+		nw.SetPolicy(func(dir, seq int, data []byte) []msgnet.Delivery { return nil })
+		var u *tubes.Unreliable
+		if !bub.Within(bub.Go(func() { u, _ = A.CreateUnreliableTube(4) }), bound) || u == nil {
+			c.Inconclusive("create did not return a tube")
+			return
+		}
+		readDone := bub.Go(func() { u.Read(make([]byte, 100)) })
+		bub.Settle(time.Duration(rng.Pick(0, 1, 400)) * time.Millisecond)
+		if !bub.Within(bub.Go(func() { u.Close() }), bound) {
+			fail("Tube.Close", map[string]any{})
+			return
+		}
+		if !bub.Within(readDone, bound) {
+			fail("Tube.Read", map[string]any{"what": "a read that was waiting when the tube was closed before its initiation completed"})
+			return
+		}
+		if !bub.Within(bub.Go(func() { u.Read(make([]byte, 100)) }), bound) {
+			fail("Tube.Read", map[string]any{"what": "a read after Close"})
+			return
+		}
+	case "resp-and-fin-together":
+		var mu sync.Mutex
+		var held [][]byte
+		holding := true
+		nw.SetPolicy(func(dir, seq int, data []byte) []msgnet.Delivery {
+			mu.Lock()
+			defer mu.Unlock()
+			if dir == 1 && holding {
+				held = append(held, append([]byte(nil), data...))
+				return nil
+			}
+			return []msgnet.Delivery{{Data: data}}
+		})
+		var a *tubes.Reliable
+		created := bub.Go(func() { a, _ = A.CreateReliableTube(4) })
+		var b tubes.Tube
+		select {
+		case b = <-acc:
+		case <-time.After(5 * time.Second):
+			c.Inconclusive("accept timed out")
+			return
+		}
+		if rng.Bool() {
+			b.Write(rng.Bytes(1 + rng.Intn(200)))
+		}
+		b.Close()
+		bub.Settle(time.Duration(rng.Pick(1, 5, 50)) * time.Millisecond)
+		mu.Lock()
+		holding = false
+		frames := held
+		mu.Unlock()
+		for _, f := range frames {
+			nw.Inject(1, f, 0) // back to back
+		}
+		if !bub.Within(created, bound) || a == nil {
+			fail("Muxer.CreateReliableTube", map[string]any{})
+			return
+		}
+		go io.Copy(io.Discard, a)
+		bub.Settle(20 * time.Millisecond)
+		if !bub.Within(bub.Go(func() { a.Close() }), bound) {
+			fail("Tube.Close", map[string]any{})
+			return
+		}
+		if !bub.Within(bub.Go(func() { a.WaitForClose(); b.(*tubes.Reliable).WaitForClose() }), bound) {
+			fail("Tube.WaitForClose", map[string]any{"state_a": stateName(a), "state_b": stateName(b)})
+			return
+		}
+	default:
+		a, err := A.CreateReliableTube(4)
+		if err != nil {
+			c.Inconclusive("create: " + err.Error())
+			return
+		}
+		var b *tubes.Reliable
+		select {
+		case t := <-acc:
+			b, _ = t.(*tubes.Reliable)
+		case <-time.After(5 * time.Second):
+		}
+		if b == nil {
+			c.Inconclusive("accept timed out")
+			return
+		}
+		go io.Copy(io.Discard, a)
+		go io.Copy(io.Discard, b)
+		for k := rng.Intn(4); k > 0; k-- {
+			a.Write(rng.Bytes(1 + rng.Intn(300)))
+			b.Write(rng.Bytes(1 + rng.Intn(300)))
+		}
+		bub.Settle(2 * time.Second) // everything written so far is acknowledged
+		if kind == "passive-close-no-ack" {
+			a.Close()
+			bub.Settle(time.Duration(rng.Pick(50, 500, 3000)) * time.Millisecond) // B has seen the FIN and acknowledged it
+			nw.SetPolicy(func(dir, seq int, data []byte) []msgnet.Delivery {
+				if dir == 0 {
+					return nil // nothing from A reaches B any more
+				}
+				return []msgnet.Delivery{{Data: data}}
+			})
+			if !bub.Within(bub.Go(func() { b.Close() }), bound) {
+				fail("Tube.Close", map[string]any{})
+				return
+			}
+			if !bub.Within(bub.Go(func() { b.WaitForClose() }), bound) {
+				fail("Tube.WaitForClose", map[string]any{"state_of_the_waiting_end": stateName(b), "state_of_its_peer": stateName(a)})
+			}
+			return
+		}
+		// crossing FINs: each FIN is held until the other has been sent too
+		victim := rng.Intn(2) // the end towards which everything is lost afterwards
+		var mu sync.Mutex
+		var first []byte
+		firstDir := -1
+		crossed := false
+		nw.SetPolicy(func(dir, seq int, data []byte) []msgnet.Delivery {
+			mu.Lock()
+			defer mu.Unlock()
+			if crossed {
+				if (victim == 0 && dir == 1) || (victim == 1 && dir == 0) {
+					return nil
+				}
+				return []msgnet.Delivery{{Data: data}}
+			}
+			if !isFIN(data) {
+				return []msgnet.Delivery{{Data: data}}
+			}
+			if firstDir == -1 {
+				first, firstDir = append([]byte(nil), data...), dir
+				return nil
+			}
+			if dir == firstDir {
+				return nil // a retransmission of the held FIN
+			}
+			crossed = true
+			nw.Inject(firstDir, first, 0)
+			return []msgnet.Delivery{{Data: data}}
+		})
+		if !bub.Within(bub.Go(func() {
+			var wg sync.WaitGroup
+			wg.Add(2)
+			go func() { defer wg.Done(); a.Close() }()
+			go func() { defer wg.Done(); b.Close() }()
+			wg.Wait()
+		}), bound) {
+			fail("Tube.Close", map[string]any{})
+			return
+		}
+		w := a
+		if victim == 1 {
+			w = b
+		}
+		if !bub.Within(bub.Go(func() { w.WaitForClose() }), bound) {
+			mu.Lock()
+			x := crossed
+			mu.Unlock()
+			fail("Tube.WaitForClose", map[string]any{"fins_crossed": x, "state_a": stateName(a), "state_b": stateName(b), "everything_lost_towards": []string{"A", "B"}[victim]})
+		}
+	}
+}
+
 // dupAckThenClose: the network repeats one acknowledgement far beyond the
 // duplicate-ack limit (a duplicating link; nothing is lost). Whatever the tube
 // makes of that, both ends can still close: Close and WaitForClose return
@@ -601,6 +808,12 @@ func slowSenderCloseRun(r *vh.Runner, c *vh.Case, i int) {
 }
 
 func genC16(r *vh.Runner) {
+	ndc := r.Pick(24, 1200)
+	for i := 0; i < ndc; i++ {
+		r.Case(fmt.Sprintf("directed-close/%d", i), map[string]any{"case": i}, func(c *vh.Case) {
+			c.Bubble(func() { directedClose(r, c, i) })
+		})
+	}
 	nsc := r.Pick(8, 300)
 	for i := 0; i < nsc; i++ {
 		r.Case(fmt.Sprintf("slow-sender-close/%d", i), map[string]any{"case": i}, func(c *vh.Case) { slowSenderCloseRun(r, c, i) })
